@@ -59,6 +59,7 @@ func (t *messageTransformSubscriberDecorator) Subscribe(ctx context.Context, top
 		for msg := range in {
 			verifhook.At("decorator.pump.recv", msg.UUID)
 			t.transform(msg)
+			verifhook.At("decorator.sub.before_out", msg.UUID)
 			verifhook.At("decorator.pump.before_send", msg.UUID)
 			select {
 			case out <- msg:
